@@ -65,6 +65,9 @@ def register(reg):
             "cells": "forall(lambda a, b, k: implies(a != b, result[a][b][k] == M(" + M_ARGS + ", a, b, k, nb_rankings)), "
                      "0, nb_elem, 0, nb_elem, 0, 3)",
             "diag": "forall(lambda a, k: result[a][a][k] == 0.0, 0, nb_elem, 0, 3)",
+            # C02.table.mirror: before(x,y) = after(y,x), tied(x,y) = tied(y,x)  (precondition of the consumers of the table)
+            "mirror": "forall(lambda a, b: result[a][b][0] == result[b][a][1] and result[a][b][2] == result[b][a][2], "
+                      "0, nb_elem, 0, nb_elem)",
         },
         loops={
             1: dict(inv={"table": "forall(lambda a, b, k: matrix[a][b][k] == " + TABLE % "a != b and min(a, b) < elem1"
